@@ -14,6 +14,7 @@ PROPERTY_MODULES = {
     "C13": ["contracts.c05", "contracts.c13"],
     "C19": ["contracts.c19"],
     "C20": ["contracts.c20"],
+    "C14": ["contracts.c14"],
     "C16": ["contracts.c16"],
     "C17": ["contracts.c17"],
     "C18": ["contracts.c05", "contracts.c06", "contracts.c18"],
